@@ -425,11 +425,21 @@ def drive(modname: str, tier: str, base_seed: int, jobs: int, runs_override: int
             digest = r2["digest"]
             msg = v["msg"]
         elif sig in _sigs(r2):
+            plan_full, decisions_full = plan, decisions
             sh = Shrinker(mod, seed, sig, budget=cfg.get("shrink_budget", 250))
             plan, decisions = sh.shrink(plan, decisions)
             r3 = run_replay(mod, seed, plan, decisions, "decisions")
+            for _ in range(3):
+                if sig in _sigs(r3):
+                    break
+                r3 = run_replay(mod, seed, plan, decisions, "decisions")
             if sig not in _sigs(r3):
-                raise HarnessError("minimised plan does not reproduce")
+                # the behaviour of the code under test is not a function of the schedule alone (e.g. it depends on the iteration
+                # order of a set of callables, i.e. on object addresses): minimisation is unstable.  The violation is real and was
+                # reproduced twice on the full plan, so report that one instead of failing the whole check.
+                print(f"HARNESS-WARNING minimisation of {sig} (seed {seed}) was unstable: the code under test behaves differently on identical schedules; "
+                      "reporting the unminimised replay")
+                plan, decisions, r3 = plan_full, decisions_full, r2
             digest = r3["digest"]
             msg = [x for x in r3["violations"] if x["sig"] == sig][0]["msg"]
         else:
